@@ -13,6 +13,7 @@ Section VC.
   Hypothesis Hlen_leaf : forall e, length (hleaf e) = s.
   Hypothesis Hlen_bottom : length hbottom = s.
   Hypothesis Hlen_node : forall b, length (hnode b) = s.
+  #[local] Set Default Proof Using "Hlen_leaf Hlen_bottom Hlen_node".
 
   Notation nextLayer := (nextLayer s hnode).
   Notation levelsOf := (levelsOf s hnode).
@@ -28,6 +29,14 @@ Section VC.
   Notation nextLayer_length := (nextLayer_length s hnode Hlen_node).
   Notation levelsOf_chain := (levelsOf_chain s hnode Hlen_node).
   Notation chain_nonempty := (chain_nonempty s hnode Hlen_node).
+  Notation claimpl_in := (claimpl_in E s hleaf hbottom hnode Hlen_leaf Hlen_bottom Hlen_node).
+  Notation claimpl_nonempty := (claimpl_nonempty E s hleaf hbottom hnode Hlen_leaf Hlen_bottom Hlen_node).
+  Notation hints_ok_of_forallb := (hints_ok_of_forallb E s hleaf hbottom hnode Hlen_leaf Hlen_bottom Hlen_node).
+  Notation verify_gen_nonempty := (verify_gen_nonempty E s hleaf hbottom hnode Hlen_leaf Hlen_bottom Hlen_node).
+  Notation rootOf_levels := (rootOf_levels E s hleaf hbottom hnode Hlen_leaf Hlen_bottom Hlen_node).
+  Notation verify_complete_core := (verify_complete_core E s hleaf hbottom hnode Hlen_leaf Hlen_bottom Hlen_node).
+  Notation prove_nonempty := (prove_nonempty E s hleaf hbottom hnode Hlen_leaf Hlen_bottom Hlen_node).
+  Notation verify_depth_irrelevant := (verify_depth_irrelevant E s hleaf hbottom hnode Hlen_leaf Hlen_bottom Hlen_node).
 
   (* ---- shape ---- *)
   Definition nOf (arr : list E) : N := N.of_nat (length arr).
@@ -86,7 +95,7 @@ Section VC.
       { destruct m; [reflexivity|]. exfalso. rewrite Ht in Hm.
         assert (Hp : (2 ^ S m = 2 * 2 ^ m)%nat) by reflexivity. rewrite Hp in Hm.
         assert (0 < 2 ^ m)%nat by (apply Nat.neq_0_lt_0, Nat.pow_nonzero; discriminate). lia. }
-      subst. split; [reflexivity|]. intros k Hk. cbn in Hk. lia.
+      subst m. split; [reflexivity|]. intros k Hk. cbn in Hk. lia.
     - destruct m as [|m]; [cbn in Hm; lia|].
       assert (Hnl : length (nextLayer l) = (2 ^ m)%nat).
       { rewrite nextLayer_length, Hm. cbn [Nat.pow]. rewrite Nat.div2_div.
@@ -132,11 +141,11 @@ Section VC.
     rewrite Nat2N.id. rewrite vcLeaves_length, padded_pow.
     pose proof (rev_bits_lt (expOf arr) i) as Hr.
     split.
-    - assert (N.to_nat (rev_bits (expOf arr) i) < N.to_nat (2 ^ N.of_nat (expOf arr)))%nat by lia.
-      rewrite N2Nat.inj_pow, Nat2N.id in H. exact H.
+    - assert (Hlt : (N.to_nat (rev_bits (expOf arr) i) < N.to_nat (2 ^ N.of_nat (expOf arr)))%nat) by lia.
+      rewrite N2Nat.inj_pow, Nat2N.id in Hlt. exact Hlt.
     - intros lsb Hl. apply vcIndex_some in Hl. destruct Hl as [_ ->].
       unfold expOf, pathOf, vcShape in *. destruct (N.leb_spec (nOf arr) 1); cbn [fst] in *.
-      + cbn in Hi. assert (i = 0)%N by lia. subst. reflexivity.
+      + cbn in Hi. assert (i = 0)%N by lia. subst i. reflexivity.
       + rewrite N2Nat.id in *. apply rev_bits_involutive. rewrite N2Nat.id. exact Hi.
   Qed.
 
@@ -151,7 +160,7 @@ Section VC.
     { unfold expOf, pathOf, vcShape, nOf in *. destruct (N.leb_spec (N.of_nat (length arr)) 1); cbn [fst].
       - left. repeat split; try reflexivity; lia.
       - right. destruct (size_facts (N.of_nat (length arr)) ltac:(lia)) as (S1 & S2 & S3).
-        rewrite N2Nat.id. repeat split; try lia. apply S3. assumption. }
+        rewrite N2Nat.id. specialize (S3 Hbig). repeat split; lia. }
     destruct Hcase as [(Hn & -> & He & Hp)|(Hn & He & Hp & Hip)].
     - rewrite He, Hp. exists 0%N. cbn. rewrite vcLeaves_length, padded_pow, He. cbn. repeat split; lia.
     - rewrite He. unfold vcIndex at 1. rewrite (shl1_lt64 (pathOf arr)) by lia.
@@ -160,12 +169,12 @@ Section VC.
       pose proof (rev_bits_lt (N.to_nat (pathOf arr)) i) as Hr. rewrite N2Nat.id in Hr.
       split; [|split].
       + rewrite vcLeaves_length, padded_pow. rewrite <- He in Hr at 2.
-        assert (N.to_nat (rev_bits (N.to_nat (pathOf arr)) i) < N.to_nat (2 ^ N.of_nat (expOf arr)))%nat by lia.
-        rewrite N2Nat.inj_pow, Nat2N.id in H. exact H.
+        assert (Hlt : (N.to_nat (rev_bits (N.to_nat (pathOf arr)) i) < N.to_nat (2 ^ N.of_nat (expOf arr)))%nat) by lia.
+        rewrite N2Nat.inj_pow, Nat2N.id in Hlt. exact Hlt.
       + unfold vcIndex. rewrite (shl1_lt64 (pathOf arr)) by lia.
         destruct (N.ltb_spec (rev_bits (N.to_nat (pathOf arr)) i) (2 ^ pathOf arr)); [|lia].
         f_equal. apply rev_bits_involutive. rewrite N2Nat.id. assumption.
-      + rewrite (shl1_lt64 (pathOf arr)) by lia. exact Hr.
+      + exact Hr.
   Qed.
 
   Lemma convertIndexes_spec : forall elems d el, convertIndexes E elems d = Some el ->
@@ -178,11 +187,11 @@ Section VC.
     - unfold convertIndexes in H. cbn [map_opt' fst snd] in H.
       destruct (vcIndex i0 d) as [p0|] eqn:E0; [|discriminate].
       fold (convertIndexes E elems d) in H.
-      destruct (convertIndexes E elems d) as [el'|] eqn:E1; [|discriminate]. inversion H; subst.
-      destruct (IH d el' eq_refl) as (I1 & I2 & I3). repeat split.
-      + intros i e [Heq|Hin]; [inversion Heq; subst; exists p0; split; [assumption | left; reflexivity]|].
+      destruct (convertIndexes E elems d) as [el'|] eqn:E1; [|discriminate]. inversion H as [Hel]. clear H. subst el.
+      destruct (IH d el' E1) as (I1 & I2 & I3). repeat split.
+      + intros i e [Heq|Hin]; [inversion Heq; subst i e; exists p0; split; [assumption | left; reflexivity]|].
         destruct (I1 i e Hin) as (p & ? & ?). exists p. split; [assumption | right; assumption].
-      + intros p e [Heq|Hin]; [inversion Heq; subst; exists i0; split; [assumption | left; reflexivity]|].
+      + intros p e [Heq|Hin]; [inversion Heq; subst p e; exists i0; split; [assumption | left; reflexivity]|].
         destruct (I2 p e Hin) as (i & ? & ?). exists i. split; [assumption | right; assumption].
       + cbn. rewrite I3. reflexivity.
   Qed.
@@ -198,6 +207,7 @@ Section VC.
     Hypothesis Hnz_leaf : forall e, hleaf e <> zeros s.
     Hypothesis Hnz_bottom : hbottom <> zeros s.
     Hypothesis Hnz_node : forall b, hnode b <> zeros s.
+    #[local] Set Default Proof Using "All".
 
     Definition isleafV (h : digest) : Prop := (exists e, h = hleaf e) \/ h = hbottom.
 
@@ -222,10 +232,10 @@ Section VC.
       destruct (convertIndexes_spec _ _ _ Ec) as (C1 & C2 & C3).
       destruct (C1 i e Hin) as (p & Hp & Hpin). exists p. split; [assumption|].
       assert (Hne : el <> []) by (intros ->; destruct Hpin).
-      rewrite (verify_gen_nonempty E s hleaf hnode) in Hv by assumption.
+      rewrite verify_gen_nonempty in Hv by assumption.
       destruct (existsb _ el); [discriminate|].
       destruct (forallb (hint_len_ok s) (p_path pf)) eqn:Hf; [|discriminate]. cbn [andb negb] in Hv.
-      apply (hints_ok_of_forallb s) in Hf.
+      apply hints_ok_of_forallb in Hf.
       destruct (levelsOf_chain _ (vcLeaves_nonempty arr)) as [Hc Hhd].
       unfold MerkleArray.buildVC in Hv. rewrite rootOf_levels in Hv by (apply chain_nonempty; assumption).
       destruct (chain_pow2 _ Hc (expOf arr)) as [_ Hfull]; [rewrite Hhd, vcLeaves_length; apply padded_pow|].
@@ -233,14 +243,14 @@ Section VC.
       { rewrite Hhd. apply Forall_forall. intros h Hh. destruct (In_nth _ _ [] Hh) as (k & Hk & <-).
         rewrite vcLeaves_nth by assumption. apply vcLeaf_isleaf. }
       assert (Hpl : forall it, In it (claimpl el) -> isleafV (snd it)).
-      { intros [p' h] Hit. apply (claimpl_in E hleaf) in Hit. destruct Hit as (e' & _ & ->). left. eauto. }
+      { intros [p' h] Hit. apply claimpl_in in Hit. destruct Hit as (e' & _ & ->). left. exists e'. reflexivity. }
       pose proof (sound_core s hnode Hlen_node Hinj_node Hnz_node isleafV) as SC.
       specialize (SC ltac:(intros h b [[e' ->]| ->]; [apply Hsep_leaf | apply Hsep_bottom])
                      ltac:(intros h [[e' ->]| ->]; [apply Hlen_leaf | apply Hlen_bottom])
                      ltac:(intros h [[e' ->]| ->]; [apply Hnz_leaf | apply Hnz_bottom])
                      (levelsOf (vcLeaves arr)) Hc Hleaves
-                     _ (claimpl el) (p_path pf) (claimpl_nonempty E hleaf el Hne) Hpl Hf Hv (p, hleaf e)).
-      destruct SC as (_ & S2 & S3); [apply (claimpl_in E hleaf); eauto|].
+                     _ (claimpl el) (p_path pf) (claimpl_nonempty el Hne) Hpl Hf Hv (p, hleaf e)).
+      destruct SC as (_ & S2 & S3); [apply claimpl_in; eauto|].
       cbn [fst snd] in *. rewrite Hhd in *. specialize (S3 Hfull). specialize (S2 S3).
       split; [assumption|].
       rewrite vcLeaves_nth in S2 by assumption. rewrite N2Nat.id in S2.
@@ -248,7 +258,7 @@ Section VC.
       destruct (vcIndex p (pathOf arr)) as [lsb|]; [|exfalso; apply (Hsep_leaf_bottom e); symmetry; assumption].
       exists lsb. split; [reflexivity|].
       destruct (nth_error arr (N.to_nat lsb)) as [e'|]; [|exfalso; apply (Hsep_leaf_bottom e); symmetry; assumption].
-      apply Hinj_leaf in S2. subst. reflexivity.
+      apply Hinj_leaf in S2. subst e'. reflexivity.
     Qed.
 
     (* with the true tree depth: element i of the array is e (position binding) *)
@@ -263,6 +273,7 @@ Section VC.
       rewrite (Hback lsb Hl) in He. exact He.
     Qed.
   End SoundVC.
+  #[local] Set Default Proof Using "Hlen_leaf Hlen_bottom Hlen_node".
 
   (* ================= completeness ================= *)
   Lemma map_opt'_all : forall {A B} (f : A -> option B) (g : A -> B) l,
@@ -316,19 +327,19 @@ Section VC.
       assert (G : forall l : list (N * E), (forall i e, In (i, e) l -> (N.to_nat i < length arr)%nat) ->
                   NoDup (map fst l) -> NoDup (map (fun x => rv (fst x)) l)).
       { induction l as [|[i e] l IH]; intros Hk Hn; [constructor|].
-        cbn [map fst] in *. inversion Hn as [|? ? Hnin Hn']; subst. constructor.
+        cbn [map fst] in *. inversion Hn as [|x xs Hnin Hn' [Ex Exs]]. constructor.
         - intros Hin. apply in_map_iff in Hin. destruct Hin as ([i' e'] & Heq & Hin'). cbn [fst] in Heq.
           assert (i' = i).
           { destruct (Hidx i (Hk i e (or_introl eq_refl))) as (_ & _ & H3 & _).
             destruct (Hidx i' (Hk i' e' (or_intror Hin'))) as (_ & _ & H3' & _).
             rewrite Heq in H3'. congruence. }
-          subst. apply Hnin. apply in_map_iff. exists (i, e'). auto.
+          subst i'. apply Hnin. apply in_map_iff. exists (i, e'). auto.
         - apply IH; [|assumption]. intros i' e' Hin'. apply (Hk i' e'). right. assumption. }
       apply G; assumption. }
     assert (Hleaf : forall p e, In (p, e) el ->
               (N.to_nat p < length leaves)%nat /\ nth (N.to_nat p) leaves [] = hleaf e).
     { intros p e Hin. unfold el in Hin. apply in_map_iff in Hin. destruct Hin as ([i e'] & Heq & Hin).
-      cbn [fst snd] in Heq. inversion Heq; subst.
+      cbn [fst snd] in Heq. inversion Heq; subst p e'.
       destruct (Hidx i (Hkeys i e Hin)) as (_ & H2 & H3 & _). split; [assumption|].
       unfold leaves. rewrite vcLeaves_nth by assumption. rewrite N2Nat.id.
       unfold MerkleArray.vcLeaf. rewrite H3.
@@ -336,7 +347,7 @@ Section VC.
     assert (Hdepth : forall p, In p P -> (p < shl1 d)%N).
     { intros p Hp. unfold P in Hp. rewrite dedup_in, sortN_in, in_map_iff in Hp.
       destruct Hp as (i & <- & Hi). apply (Hidx i (Hrange i Hi)). }
-    destruct (verify_complete_core E s hleaf Hlen_node leaves el P d true Hlne Hlen Helne Hndel HS Hmem Hleaf Hdepth)
+    destruct (verify_complete_core leaves el P d true Hlne Hlen Helne Hndel HS Hmem Hleaf Hdepth)
       as [E1 E2].
     exists (mkProof (snd (proveLoop (levelsOf leaves) P)) d). split.
     - rewrite prove_nonempty by assumption. unfold MerkleArray.buildVC at 1 2 3. cbn [t_n t_vc t_levels]. fold leaves.
@@ -349,7 +360,8 @@ Section VC.
         specialize (Hrange i Hi). apply N.leb_le in Hle. lia. }
       rewrite Hex. fold d.
       rewrite (map_opt'_all _ rv) by (intros i Hi; apply (Hidx i (Hrange i Hi))).
-      fold P. destruct (proveLoop (levelsOf leaves) P) as [plf hints] eqn:Ep. cbn [fst snd] in *.
+      fold P. change (t_levels (buildVC arr)) with (levelsOf leaves).
+      destruct (proveLoop (levelsOf leaves) P) as [plf hints] eqn:Ep. cbn [fst snd] in *.
       rewrite E1. cbn [length Nat.eqb]. reflexivity.
     - unfold MerkleArray.verifyVC, MerkleArray.verifyVC_gen. cbn [p_depth].
       assert (Hconv : convertIndexes E elems d = Some el).
@@ -371,9 +383,10 @@ Section VC.
     - discriminate.
     - intros i [<-|[]]. cbn. assumption.
     - cbn. constructor; [tauto | constructor].
-    - intros p e. cbn. split.
-      + intros [Heq|[]]. inversion Heq; subst. auto.
-      + intros [[<-|[]] He]. cbn in He. left. congruence.
+    - intros p e. cbn [In]. split.
+      + intros [Heq|[]]. inversion Heq; subst p e. split; [left; reflexivity | exact H0].
+      + intros [[<-|[]] He]. change (N.to_nat 0) with 0%nat in He. rewrite H0 in He.
+        inversion He. left. reflexivity.
     - exists pf. split; [assumption|].
       unfold MerkleArray.verifyVC, MerkleArray.verifyVC_gen in *. cbn [p_depth].
       assert (Hc0 : forall d, (d < 64)%N -> convertIndexes E [(0%N, e0)] d = Some [(0%N, e0)]).
@@ -389,7 +402,7 @@ Section VC.
         apply vcIndex_some in Ev. destruct Ev as [Ev _]. eapply shl1_pos. eassumption. }
       rewrite (Hc0 _ Hdp) in Ec. inversion Ec; subst el.
       destruct pf as [path dd]. cbn [p_path p_depth] in *.
-      rewrite <- Hv. apply (verify_depth_irrelevant E s hleaf hnode).
+      rewrite <- Hv. apply verify_depth_irrelevant.
       intros pe [<-|[]]. cbn [fst]. rewrite !shl1_lt64 by assumption.
       pose proof (N.pow_nonzero 2 d'). pose proof (N.pow_nonzero 2 dd). lia.
   Qed.
